@@ -97,6 +97,21 @@ terminator (as `lines::without_terminator` cuts it), flipped by `invert_match`. 
 def lineSel (cfg : Config) (m : MatcherI) (line : Bytes) : Bool :=
   (m.shortestMatch (Lines.withoutTerminator line cfg.lineTerm)).isSome != cfg.invertMatch
 
+/-- The line content as property C01 defines it: the line minus its terminator byte, and under CRLF also
+minus a `\r` directly before it. -/
+def content (lt : Lines.LineTerm) (line : Bytes) : Bytes :=
+  if line.getLast? = some lt.asByte then
+    if lt = .crlf ∧ line.dropLast.getLast? = some 13 then line.dropLast.dropLast else line.dropLast
+  else line
+
+/-- offset and bytes of a `matched` callback -/
+def matchedOf : Event → Option (Nat × Bytes)
+  | .matched _ off bs => some (off, bs)
+  | _ => none
+
+/-- the lines reported as matching: offset and bytes of every `matched` callback, in order -/
+def reported (evs : List Event) : List (Nat × Bytes) := evs.filterMap matchedOf
+
 /-- The grep model of an input for a selection predicate on lines. -/
 def grepSpec (cfg : Config) (sel : Bytes → Bool) (inp : Bytes) : List Event :=
   grepSpecLines cfg ((splitLines cfg.lineTerm.asByte inp).map fun l => (l, sel l))
